@@ -115,6 +115,33 @@ def rule_event_folding(ctx):
                 ctx.check(rel, rc.fq, f"{ch.name}: only relevant paths are recorded", "every path is recorded", "filtered")
         if not seen:
             raise AnalysisError(f"record_change records nothing for {ch.name}")
+    # last event wins: whatever was recorded for the path before, a relevant DELETED leaves it in `deleted` only and
+    # a relevant UPDATED leaves it in `updated` only (a restart sees the final state of the file system, nothing else)
+    for ch in (Ch.DELETED, Ch.UPDATED):
+        for ind, inu in ((False, False), (True, False), (False, True)):
+            ov = {"path not in self.deleted": not ind, "path not in self.updated": not inu, "path in self.deleted": ind, "path in self.updated": inu,
+                  "self.workflow.change_is_relevant(path, during_build=during_build)": True}
+            fp = finite.feasible_paths(ctx.prog, rc, {"change": ch}, ov)
+            if not fp:
+                raise AnalysisError(f"record_change: no feasible path for {ch.name} with deleted={ind} updated={inu}")
+            outcomes = set()
+            for tr, st in fp:
+                d, u = ind, inu
+                for e in tr:
+                    if e[0] != "call":
+                        continue
+                    if e[1] == "self.deleted.add":
+                        d = True
+                    elif e[1] == "self.deleted.discard":
+                        d = False
+                    elif e[1] == "self.updated.add":
+                        u = True
+                    elif e[1] == "self.updated.discard":
+                        u = False
+                outcomes.add((d, u))
+            want = (True, False) if ch == Ch.DELETED else (False, True)
+            ctx.check(outcomes == {want}, rc.fq, f"{ch.name} after (deleted={ind}, updated={inu}): the path ends in {'deleted' if ch == Ch.DELETED else 'updated'} only",
+                      f"possible outcomes (in deleted, in updated) = {sorted(outcomes)}: an event that contradicts the one recorded earlier in the same phase is dropped, so the glob match sets and the hashes are updated for a state of the file system that no longer exists", "last event wins")
     ro = ctx.prog.func("watcher.Watcher.run_once")
     for tr, st in flow.paths_of(ro):
         names = [(k, e[1]) for k, e in enumerate(tr) if e[0] == "call"]
@@ -132,7 +159,7 @@ def rule_event_folding(ctx):
 RULES = [
     Rule("R-C14-1", "same reactions on both sides", rule_same_reactions, min_instances=10),
     Rule("R-C14-2", "same relevance filter", rule_same_filter, min_instances=6),
-    Rule("R-C14-3", "event folding keeps the sets disjoint", rule_event_folding, min_instances=9),
+    Rule("R-C14-3", "event folding keeps the sets disjoint", rule_event_folding, min_instances=15),
 ]
 
 MUTANTS = [
@@ -140,6 +167,7 @@ MUTANTS = [
     Mutant("rebuild-no-retry", "director.py", in_function("DirectorHandler.start_build_phase", lambda s: s.replace("            for step in self.workflow.steps(StepState.FAILED):\n                self.workflow.mark_step_pending(step)\n", "            pass\n") if "self.workflow.mark_step_pending(step)" in s else None), ("R-C14-1",)),
     Mutant("rescan-skips-built", "startup.py", replace_once("data = (FileState.PLANNED.value, FileState.VOLATILE.value)", "data = (FileState.PLANNED.value, FileState.BUILT.value)"), ("R-C14-2",)),
     Mutant("relevant-drops-outdated", "workflow.py", replace_once("_RELEVANT_STATES = frozenset(FileState) - {FileState.PLANNED, FileState.VOLATILE}", "_RELEVANT_STATES = frozenset(FileState) - {FileState.PLANNED, FileState.VOLATILE, FileState.OUTDATED}"), ("R-C14-2",)),
+    Mutant("opposite-event-dropped", "watcher.py", in_function("Watcher.record_change", lambda s: s.replace("if change == Change.DELETED and path not in self.deleted:", "if change == Change.DELETED and path not in self.deleted and path not in self.updated:", 1) if "if change == Change.DELETED and path not in self.deleted:" in s else None), ("R-C14-3",)),
     Mutant("no-discard", "watcher.py", in_function("Watcher.record_change", lambda s: s.replace("                self.deleted.add(path)\n                self.updated.discard(path)\n", "                self.deleted.add(path)\n", 1) if "self.updated.discard(path)" in s else None), ("R-C14-3",)),
     Mutant("unchanged-not-pruned", "watcher.py", in_function("Watcher.run_once", replace_once("                    self.updated.discard(path)\n", "")), ("R-C14-3",)),
     Mutant("resume-before-done", "director.py", in_function("DirectorHandler.start_build_phase", lambda s: s.replace("        await wait_for_any_event(self.watcher.done_watching, self.stop_event)\n", "") if "self.watcher.done_watching" in s else None), ("R-C14-1",)),
